@@ -97,7 +97,7 @@ func init() {
 		// to a later wait: after executions cancelled 0-195 us before a 2 ms delay expires (by a spinning canceller), a probe with a 20 ms delay still waits
 		{
 			early, probes := 0, 0
-			for round := 0; round < 40; round++ {
+			for round := 0; round < 120; round++ {
 				ctx, cancel := context.WithCancel(context.Background())
 				rp := retrypolicy.Builder[any]().WithDelay(2 * ms).WithMaxRetries(1).
 					OnRetryScheduled(func(e failsafe.ExecutionScheduledEvent[any]) {
